@@ -162,7 +162,7 @@ pub fn c03(r: &mut Rng, t: u32, n: usize) -> Vec<Value> {
     while v.len() < n {
         maybe_set(r, t, &mut v, 4);
         let op = if r.below(3) == 0 { "checked_div" } else { "div" };
-        match r.below(10) {
+        match r.below(12) {
             0 | 1 | 2 | 3 => {
                 if let Some((x, p, y, q)) = div_case(r, 18) {
                     v.push(bin(t, op, dj(x, p), "dec", dj(y, q), "dec", 0, r.below(4)));
@@ -178,6 +178,15 @@ pub fn c03(r: &mut Rng, t: u32, n: usize) -> Vec<Value> {
                 let xc = (MAXC / p10(k.min(38))).saturating_mul(yc).saturating_add(r.range(-2, 2) as i128);
                 let (xc, yc) = sign2(r, clampc2(xc), yc);
                 v.push(bin(t, op, dj(xc, p as u8), "dec", dj(yc, q as u8), "dec", 0, r.below(4)));
+            }
+            10 | 11 => {
+                // Knuth-D adversarial operands through the public operator: k = 18 + q - p with p = 0
+                if let Some((a, k, mm)) = knuth_shifted(r) {
+                    if k < 18 || k > 36 { continue; }
+                    let q = k - 18;
+                    let (a, mm) = sign2(r, a, mm);
+                    v.push(bin(t, op, dj(a, 0), "dec", dj(mm, q as u8), "dec", 0, r.below(4)));
+                }
             }
             8 => {
                 if let Some((a, k, mm)) = high_word_equals_divisor(r) {
